@@ -243,40 +243,85 @@ Proof.
   intros Hid Hc. unfold treg_apply. apply N.eqb_neq in Hid. rewrite Hid, Hc. cbn. auto.
 Qed.
 
+Lemma del_absent m k : ~ In k (keys m) -> del m k = m.
+Proof.
+  unfold keys, del. induction m as [|e r IH]; cbn; intros H; [reflexivity|].
+  destruct (N.eqb_spec (fst e) k) as [E|E]; cbn.
+  - exfalso. apply H. left. exact E.
+  - f_equal. apply IH. intros Hin. apply H. right. exact Hin.
+Qed.
+
+Lemma del_length_present m k : NoDup (keys m) -> In k (keys m) -> S (length (del m k)) = length m.
+Proof.
+  induction m as [|e r IH]; intros Hn Hin; [contradiction|].
+  cbn in Hn. inversion Hn as [|? ? Hne Hr]; subst.
+  unfold del. cbn [filter]. fold (del r k). destruct (N.eqb_spec (fst e) k) as [E|E]; cbn [negb length].
+  - subst k. rewrite (del_absent r (fst e) Hne). reflexivity.
+  - destruct Hin as [Hin|Hin]; [cbn in Hin; contradiction|]. rewrite <- (IH Hr Hin). reflexivity.
+Qed.
+
+Lemma has_false m k : has m k = false -> ~ In k (keys m).
+Proof. intros H Hin. apply has_true in Hin. congruence. Qed.
+
 Lemma creg_inv max o m : RInv max m -> RInv max (snd (creg_apply max o m)).
 Proof.
   intros [Hn Hc]. unfold creg_apply. destruct o as [id t|id].
   - destruct (N.eqb id 0); [split; assumption|].
-    destruct (at_cap max (length m)) eqn:Ec.
-    + destruct (oldest m) as [old|] eqn:Eo; [|split; assumption]. cbn [snd].
-      split; [apply NoDup_keys_put, NoDup_keys_del, Hn|].
-      intros Hm. cbn [length]. pose proof (del_length_le (del m (fst old)) id).
-      assert (In (fst old) (keys m)) as Hin by (apply in_map, oldest_in, Eo).
-      pose proof (del_length_lt m (fst old) Hin). specialize (Hc Hm). lia.
-    + cbn [snd]. split; [apply NoDup_keys_put, Hn|].
-      intros Hm. apply at_cap_false in Ec. cbn [length]. pose proof (del_length_le m id). lia.
+    destruct (has m id) eqn:Eh.
+    + (* replacement: the count does not grow *)
+      cbn [snd]. split; [apply NoDup_keys_put, Hn|].
+      intros Hm. cbn [length]. apply has_true in Eh. pose proof (del_length_lt m id Eh). specialize (Hc Hm). lia.
+    + apply has_false in Eh. destruct (at_cap max (length m)) eqn:Ec.
+      * destruct (oldest m) as [old|] eqn:Eo; [|split; assumption]. cbn [snd].
+        split.
+        -- cbn. constructor; [|apply NoDup_keys_del, Hn]. intros Hin. apply keys_del in Hin. tauto.
+        -- intros Hm. cbn [length].
+           assert (In (fst old) (keys m)) as Hin by (apply in_map, oldest_in, Eo).
+           pose proof (del_length_lt m (fst old) Hin). specialize (Hc Hm). lia.
+      * cbn [snd]. split; [cbn; constructor; assumption|].
+        intros Hm. apply at_cap_false in Ec. cbn [length]. lia.
   - destruct (has m id); cbn [snd]; [|split; assumption]. split; [apply NoDup_keys_del, Hn|].
     intros Hm. pose proof (del_length_le m id). specialize (Hc Hm). lia.
 Qed.
 
-(* the control cap never refuses a valid connection: at the cap it evicts an entry with the minimal CreatedAt *)
-Lemma creg_evicts_oldest max id t m : id <> 0%N -> at_cap max (length m) = true ->
+(* the control cap never refuses a valid connection: a NEW id at the cap evicts an entry with the minimal CreatedAt *)
+Lemma creg_evicts_oldest max id t m : id <> 0%N -> ~ In id (keys m) -> at_cap max (length m) = true ->
   exists old, In old m /\ (forall e, In e m -> (snd old <= snd e)%N) /\
               fst (creg_apply max (RReg id t) m) = REvicted (fst old) /\
               In id (keys (snd (creg_apply max (RReg id t) m))) /\
-              (fst old <> id -> ~ In (fst old) (keys (snd (creg_apply max (RReg id t) m)))).
+              ~ In (fst old) (keys (snd (creg_apply max (RReg id t) m))) /\
+              length (snd (creg_apply max (RReg id t) m)) <= length m.
 Proof.
-  intros Hid Hc. unfold creg_apply. apply N.eqb_neq in Hid. rewrite Hid, Hc.
+  intros Hid Hnew Hc. unfold creg_apply. apply N.eqb_neq in Hid. rewrite Hid.
+  assert (Eh : has m id = false) by (destruct (has m id) eqn:E; [apply has_true in E; contradiction|reflexivity]).
+  rewrite Eh, Hc.
   apply at_cap_true in Hc. destruct (oldest_some m) as [old Eo]; [destruct m; cbn in *; [lia|discriminate]|].
   rewrite Eo. exists old. split; [apply oldest_in, Eo|]. split; [apply oldest_min, Eo|]. cbn [fst snd].
-  split; [reflexivity|]. split; [cbn; auto|].
-  intros Hne [H|H]; [cbn in H; congruence|]. apply keys_del in H. destruct H as [H _]. apply keys_del in H. tauto.
+  assert (Hin : In (fst old) (keys m)) by (apply in_map, oldest_in, Eo).
+  split; [reflexivity|]. split; [cbn; auto|]. split.
+  - intros [H|H]; [cbn in H; subst; contradiction|]. apply keys_del in H. tauto.
+  - cbn [length]. pose proof (del_length_lt m (fst old) Hin). lia.
+Qed.
+
+(* re-registering a ConnID that already has a record replaces it: accepted, nothing else is evicted, the count stays *)
+Lemma creg_replace_keeps max id t m : id <> 0%N -> NoDup (keys m) -> In id (keys m) ->
+  fst (creg_apply max (RReg id t) m) = ROk /\
+  length (snd (creg_apply max (RReg id t) m)) = length m /\
+  (forall k, In k (keys (snd (creg_apply max (RReg id t) m))) <-> In k (keys m)).
+Proof.
+  intros Hid Hn Hin. unfold creg_apply. apply N.eqb_neq in Hid. rewrite Hid.
+  apply has_true in Hin. rewrite Hin. apply has_true in Hin. cbn [fst snd]. split; [reflexivity|]. split.
+  - cbn [length]. apply del_length_present; assumption.
+  - intros k. cbn. split.
+    + intros [H|H]; [subst; exact Hin|]. apply keys_del in H. tauto.
+    + intros H. destruct (N.eq_dec k id) as [->|Hne]; [left; reflexivity|right]. apply keys_del. tauto.
 Qed.
 
 Lemma creg_refused_unchanged max o m : fst (creg_apply max o m) = RRefused -> snd (creg_apply max o m) = m.
 Proof.
   unfold creg_apply. destruct o as [id t|id].
-  - destruct (N.eqb id 0); [reflexivity|]. destruct (at_cap max (length m)).
+  - destruct (N.eqb id 0); [reflexivity|]. destruct (has m id); [cbn; discriminate|].
+    destruct (at_cap max (length m)).
     + destruct (oldest m); [cbn; discriminate|reflexivity].
     + cbn. discriminate.
   - destruct (has m id); cbn; discriminate.
